@@ -1,6 +1,6 @@
 (* C17: quoted amounts equal executed amounts; slippage limits are honoured.  Statements only. *)
 From MP.Model Require Import Prelude U128 SInt Feed Vamm VammOps Token World Engine Runtime.
-From MP.Proofs Require Import Tactics SIntFacts VammFacts SwapFacts.
+From MP.Proofs Require Import Tactics SIntFacts VammFacts SwapFacts OpenTxFacts.
 
 (* the swap reports and moves exactly the requested quote amount and the queried base amount *)
 Theorem C17_input_quote_is_execution : forall v e s d quote lim cgo v' qa ba,
@@ -43,3 +43,19 @@ Theorem C17_output_limit : forall v e s d base lim quote r,
    output_limit_met d quote lim = true /\ swap_output v e s d base 0 = Ok r).
 Proof. exact swap_output_limit_iff. Qed.
 Print Assumptions C17_output_limit.
+
+(* END TO END, at the engine.  The swap that a new-position OpenPosition transaction executes is the
+   swap_input of the requested notional carrying the caller's limit unchanged (so by C17_input_limit a
+   non-zero limit is honoured: a Buy receives at least it, a Sell gives at most it), and the stored position
+   holds exactly the base amount that swap exchanged.  For the whole-position ClosePosition the same is part
+   of C04_close_position_tx_pays_equity: the executed swap_output carries the caller's limit. *)
+Theorem C17_open_new_position_tx_swap : forall f w t v s m l lim funds w' vm,
+  exec_op f w (OEngine t (EOpenPosition v s m l lim) funds) = Ok w' ->
+  find_position (w_eng w) v t = None -> get_vamm w v = Ok vm -> 0 < e_dec (ec (w_eng w)) ->
+  wf0 (v_total (vs vm)) ->
+  let notional := m * l / e_dec (ec (w_eng w)) in
+  exists vm' ba, swap_input vm (w_env w) A_ENGINE (side_to_direction s) notional lim false = Ok (vm', (notional, ba)) /\
+    0 <= ba /\
+    exists p, find_position (w_eng w') v t = Some p /\ toZ (p_size p) = match s with Buy => ba | Sell => - ba end.
+Proof. exact open_new_position_tx_swap. Qed.
+Print Assumptions C17_open_new_position_tx_swap.
